@@ -42,6 +42,7 @@ class C11(Property):
     ID = "C11"
     SESSIONS = ["s0", "s1"]
     RUNS = {"quick": (6000, 6000), "thorough": (150000, 150000)}
+    MUST_REACH = {"probes": ["overwrite_shorter", "refused_overwrite", "default_output_name", "foreign_valid_file", "foreign_ext_header", "recovery_after_fault", "stale_target"], "faults": ["crash", "enospc", "eio_write", "eio_read", "short_write", "short_read", "eintr", "open_fail", "emfile_budget"]}
 
     def config(self, rng, tier, faulty):
         big = 48 if tier == "thorough" else 24
